@@ -325,6 +325,18 @@ def ownersLine (t : WT) : WT × String := Id.run do
   if cnt > 0 then runs := runs.push s!"{prev}*{cnt}"
   return (t, "ok " ++ ",".intercalate runs.toList)
 
+/-- `ownersat b1,b2,…`: the owner (first 8 hex digits of the key) or the error of each listed block -/
+def ownersAt (t : WT) (blocks : List Nat) : WT × String := Id.run do
+  let mut t := t
+  let mut parts : Array String := #[]
+  for b in blocks do
+    let (t', r) := blockProof Hh t b
+    t := t'
+    match r with
+    | .err e => parts := parts.push s!"{errStr e}@{b}"
+    | .ok (key, _) => parts := parts.push s!"{((hex key).take 8).toString}@{b}"
+  return (t, "ok " ++ ",".intercalate parts.toList)
+
 def rootStr (t : WT) : WT × String :=
   let (t', h) := rootHash Hh t
   (t', hex h)
@@ -384,7 +396,12 @@ def step (s : St) (w : List String) : St × String :=
   | ["owner", b] =>
     let (t', r) := blockProof Hh s.t b.toNat!
     ({ s with t := t' }, resStr r (fun (key, _) => "ok " ++ hex key))
-  | ["owners"] => let (t', o) := ownersLine s.t; ({ s with t := t' }, o)
+  | ["owners"] =>
+    if s.t.weight > 4096 then (s, "toobig")
+    else let (t', o) := ownersLine s.t; ({ s with t := t' }, o)
+  | ["ownersat", bs] =>
+    let (t', o) := ownersAt s.t ((bs.splitOn ",").map String.toNat!)
+    ({ s with t := t' }, o)
   | ["proof", b, slot] =>
     let b := b.toNat!
     let (t', r) := blockProof Hh s.t b
